@@ -522,6 +522,26 @@ func (p *queryPlan) addSpecifiedData(ctx context.Context, r table.Row, cls *sema
 		}
 		lo = nlo
 	}
+	// The time bounds of a predicate in the object position may be given as
+	// bindings. Their values for the current row narrow the bounds of the clause.
+	if cls.OLowerBoundAlias != "" {
+		v, ok := r[cls.OLowerBoundAlias]
+		if !ok || v == nil || v.T == nil {
+			return fmt.Errorf("invalid time anchor value %v for bound %s", v, cls.OLowerBoundAlias)
+		}
+		if cls.OLowerBound == nil || v.T.After(*cls.OLowerBound) {
+			cls.OLowerBound = v.T
+		}
+	}
+	if cls.OUpperBoundAlias != "" {
+		v, ok := r[cls.OUpperBoundAlias]
+		if !ok || v == nil || v.T == nil {
+			return fmt.Errorf("invalid time anchor value %v for bound %s", v, cls.OUpperBoundAlias)
+		}
+		if cls.OUpperBound == nil || v.T.Before(*cls.OUpperBound) {
+			cls.OUpperBound = v.T
+		}
+	}
 	if cls.O == nil && cls.OID != "" && cls.OAnchorBinding != "" {
 		v := r[cls.OAnchorBinding]
 		if v != nil && v.T != nil {
